@@ -162,20 +162,20 @@ Section Equiv.
   Lemma step_sim : forall st s out sseq oseq q, Inv st s out sseq oseq ->
     sim_result (step false st s q) (seq_step sseq q) q out oseq.
   Proof.
-    intros st s out sseq oseq q HI. unfold sim_result, Model.step, Model.seq_step.
+    intros st s out sseq oseq q HI. unfold sim_result, Model.step, Model.seq_step, Model.exec_redis.
     destruct (rkind q) eqn:K.
     - (* redis *)
-      destruct (rnargs q <? 2); [exact I|]. simpl andb. cbv iota.
+      destruct (rnargs q <? 2); [exact I|].
       destruct (is_batchable st q && rvalid q) eqn:B0.
       + apply andb_true_iff in B0 as [B Hv].
         (* joins (or opens) the batch: the handler reads the committed store, which lacks the pending writes *)
         destruct (is_batchable_true _ _ B) as [Hb Hn].
         destruct HI as [Hs Ho Hw Hi].
         assert (Hh : handler q sseq = handler q s) by (subst sseq; eapply indep_wb; eauto).
-        assert (Est : exists st1, (if batching st then (st, s, @nil (N * R), @nil ev) else (begin_op W R st, s, [], [EB])) = (st1, s, [], if batching st then [] else [EB])
+        assert (Est : exists st1 ee, (if batching st then (st, s, @nil (N * R), [] ++ [EQ (is_batchable st q)]) else (begin_op W R st, s, [], [] ++ [EQ (is_batchable st q); EB])) = (st1, s, [], ee)
                                   /\ batching st1 = true /\ dup st1 = dup st /\ pend st1 = pend st /\ wb st1 = wb st).
-        { destruct (batching st) eqn:Bt; eexists; (split; [reflexivity|]); simpl; auto. }
-        destruct Est as [st1 [E1 [Bt1 [D1 [P1 W1]]]]]. rewrite E1. rewrite Hh.
+        { destruct (batching st) eqn:Bt; eexists; eexists; (split; [reflexivity|]); simpl; auto. }
+        destruct Est as [st1 [ee [E1 [Bt1 [D1 [P1 W1]]]]]]. rewrite E1. rewrite Hh.
         destruct (handler q s) as [ws r|e ab|] eqn:Hq.
         * rewrite Bt1. simpl. rewrite Bt1. constructor; simpl.
           -- rewrite W1, commit_ws_app. now subst sseq.
@@ -451,40 +451,58 @@ Section OpInv.
     apply andb_true_iff in H as [H _]. apply andb_true_iff in H as [_ H]. now apply N.ltb_lt.
   Qed.
 
+  Lemma commit_op_ok : forall (st : opstate W R) s st1 s1 o1, op_ok st ->
+    commit_op store W R apply_w st s = (st1, s1, o1) -> op_ok st1.
+  Proof.
+    intros st s st1 s1 o1 Hok H. unfold commit_op in H. destruct (batching st); inversion H; subst; [apply op_ok_init | exact Hok].
+  Qed.
+
+  Lemma exec_redis_op_ok : forall st s out0 ev0 q st' s' o e, op_ok st ->
+    exec_redis store W R apply_w handler err_invalid st s out0 ev0 q = Some (st', s', o, e) -> op_ok st'.
+  Proof.
+    intros st s out0 ev0 q st' s' o e [Hi Hl] H. unfold Model.exec_redis in H.
+    destruct (is_batchable W R st q && rvalid q) eqn:B0.
+    - apply andb_true_iff in B0 as [B _]. pose proof (is_batchable_room _ _ B) as Hroom.
+      assert (Est : exists st1 ee, (if batching st then (st, s, out0, ev0 ++ [EQ (is_batchable W R st q)]) else (begin_op W R st, s, out0, ev0 ++ [EQ (is_batchable W R st q); EB])) = (st1, s, out0, ee)
+                                /\ batching st1 = true /\ pend st1 = pend st).
+      { destruct (batching st) eqn:Bt; eexists; eexists; (split; [reflexivity|]); simpl; auto. }
+      destruct Est as [st1 [ee [E1 [Bt1 P1]]]]. rewrite E1 in H.
+      destruct (handler q s) as [ws r|er ab|].
+      + rewrite Bt1 in H. simpl in H. rewrite Bt1 in H. inversion H; subst. split; simpl.
+        * intros Hf; congruence.
+        * rewrite P1, app_length. simpl. lia.
+      + rewrite Bt1 in H. destruct ab.
+        * unfold abort_op in H. simpl in H. rewrite Bt1 in H. inversion H; subst. apply op_ok_init.
+        * inversion H; subst. split; simpl; [intros Hf; congruence | rewrite P1; exact Hl].
+      + inversion H; subst. split; [intros Hf; congruence | rewrite P1; exact Hl].
+    - unfold commit_op in H. destruct (batching st) eqn:Bt.
+      + destruct (handler q (commit_ws store W apply_w s (wb st))) as [ws r|er ab|]; simpl in H.
+        * inversion H; subst. apply op_ok_init.
+        * destruct ab; simpl in H; inversion H; subst; apply op_ok_init.
+        * inversion H; subst. apply op_ok_init.
+      + rewrite (Hi eq_refl) in H. simpl in H.
+        destruct (handler q s) as [ws r|er ab|]; simpl in H.
+        * inversion H; subst. apply op_ok_init.
+        * destruct ab; simpl in H; inversion H; subst; apply op_ok_init.
+        * inversion H; subst. apply op_ok_init.
+  Qed.
+
   Lemma step_op_ok : forall c st s q st' s' o e, op_ok st -> step c st s q = Some (st', s', o, e) -> op_ok st'.
   Proof.
-    intros c st s q st' s' o e [Hi Hl] H. unfold Model.step in H.
+    intros c st s q st' s' o e Hok H. unfold Model.step in H.
     destruct (rkind q).
     - destruct (rnargs q <? 2); [discriminate|].
-      destruct (c && conflicts q s); [inversion H; subst; now split|].
-      destruct (is_batchable W R st q && rvalid q) eqn:B0.
-      + apply andb_true_iff in B0 as [B _]. pose proof (is_batchable_room _ _ B) as Hroom.
-        assert (Est : exists st1, (if batching st then (st, s, @nil (N * R), @nil ev) else (begin_op W R st, s, [], [EB])) = (st1, s, [], if batching st then [] else [EB])
-                                  /\ batching st1 = true /\ pend st1 = pend st).
-        { destruct (batching st) eqn:Bt; eexists; (split; [reflexivity|]); simpl; auto. }
-        destruct Est as [st1 [E1 [Bt1 P1]]]. rewrite E1 in H.
-        destruct (handler q s) as [ws r|er ab|].
-        * rewrite Bt1 in H. simpl in H. rewrite Bt1 in H. inversion H; subst. split; simpl.
-          -- intros Hf; congruence.
-          -- rewrite P1, app_length. simpl. lia.
-        * rewrite Bt1 in H. destruct ab.
-          -- unfold abort_op in H. simpl in H. rewrite Bt1 in H. inversion H; subst. apply op_ok_init.
-          -- inversion H; subst. split; simpl; [intros Hf; congruence | rewrite P1; exact Hl].
-        * inversion H; subst. split; [intros Hf; congruence | rewrite P1; exact Hl].
-      + unfold commit_op in H. destruct (batching st) eqn:Bt.
-        * destruct (handler q (commit_ws store W apply_w s (wb st))) as [ws r|er ab|]; simpl in H.
-          -- inversion H; subst. apply op_ok_init.
-          -- destruct ab; simpl in H; inversion H; subst; apply op_ok_init.
-          -- inversion H; subst. apply op_ok_init.
-        * rewrite (Hi eq_refl) in H. simpl in H.
-          destruct (handler q s) as [ws r|er ab|]; simpl in H.
-          -- inversion H; subst. apply op_ok_init.
-          -- destruct ab; simpl in H; inversion H; subst; apply op_ok_init.
-          -- inversion H; subst. apply op_ok_init.
-    - unfold commit_op in H. destruct (batching st) eqn:Bt.
-      + destruct (other_exec q (commit_ws store W apply_w s (wb st))) as [s2 r]. inversion H; subst. apply op_ok_init.
-      + destruct (other_exec q s) as [s2 r]. inversion H; subst. split; [intros _; now apply Hi | exact Hl].
-    - inversion H; subst. now split.
+      destruct c.
+      + destruct (commit_op store W R apply_w st s) as [[st0 s0] out0] eqn:C.
+        pose proof (commit_op_ok _ _ _ _ _ Hok C) as Hok0.
+        destruct (conflicts q s0).
+        * inversion H; subst. exact Hok0.
+        * eapply exec_redis_op_ok; eauto.
+      + eapply exec_redis_op_ok; eauto.
+    - destruct (commit_op store W R apply_w st s) as [[st1 s1] o1] eqn:C.
+      pose proof (commit_op_ok _ _ _ _ _ Hok C) as Hok1.
+      destruct (other_exec q s1) as [s2 r]. inversion H; subst. exact Hok1.
+    - inversion H; subst. exact Hok.
   Qed.
 
   Theorem steps_op_ok : forall c qs st s st' s' o e, op_ok st -> steps c st s qs = Some (st', s', o, e) -> op_ok st'.
